@@ -116,7 +116,7 @@ def _nested_strref(prop, v):
     chain = v.get("chain", "")
     last = chain.split("@")[0].split("+")[-1]
     pos = chain.split("@")[-1].split("(")[0]
-    return (v.get("kind") in ("wrapped-does-not-build", "not-transparent") and last == "strref" and pos in ("coll", "mapval", "tuple", "union", "pair"))
+    return (v.get("kind") in ("wrapped-does-not-build", "not-transparent") and last == "strref" and pos in ("coll", "mapval", "tuple", "union", "union_sibling", "pair"))
 
 
 @classifier("unqualified-string-reference-cached")
